@@ -40,11 +40,13 @@ type scriptTransport struct {
 	resps     []scriptedResp
 	n         int
 	exhausted bool
+	lasts     []string // the `last` query parameter of each request, as a server decodes it
 }
 
 var errScriptExhausted = errors.New("script exhausted")
 
 func (t *scriptTransport) RoundTrip(req *http.Request) (*http.Response, error) {
+	t.lasts = append(t.lasts, req.URL.Query().Get("last"))
 	if req.Body != nil {
 		io.Copy(io.Discard, req.Body)
 		req.Body.Close()
@@ -136,10 +138,13 @@ func c18Pager(t []string) string {
 	}
 	tr := &scriptTransport{}
 	rest := t[3:]
+	var pages [][]string // the items of each scripted page; nil for a failure
+	var linked []bool    // whether the page carried a usable Link header
 	for len(rest) > 0 {
 		switch rest[0] {
 		case "F":
 			tr.resps = append(tr.resps, scriptedResp{status: 500, body: `{"errors":[{"code":"UNKNOWN"}]}`, hdr: [][2]string{{"Content-Type", "application/json"}}})
+			pages, linked = append(pages, nil), append(linked, false)
 			rest = rest[1:]
 		case "P":
 			cnt, _ := strconv.Atoi(rest[2])
@@ -157,6 +162,7 @@ func c18Pager(t []string) string {
 				r.hdr = append(r.hdr, [2]string{"Link", `no-angle-brackets`})
 			}
 			tr.resps = append(tr.resps, r)
+			pages, linked = append(pages, items), append(linked, rest[1] == "1")
 			rest = rest[3+cnt:]
 		default:
 			return "bad-op"
@@ -182,6 +188,17 @@ func c18Pager(t []string) string {
 		}
 		return true
 	})
+	// progress: a request that follows a page without a Link header asks for what comes after that page's
+	// last item - as a server reads the query - and not for anything else
+	for i := 1; i < len(tr.lasts) && i <= len(pages); i++ {
+		prev := pages[i-1]
+		if prev == nil || linked[i-1] || len(prev) == 0 {
+			continue
+		}
+		if want := prev[len(prev)-1]; tr.lasts[i] != want {
+			return fmt.Sprintf("yield [%s] requests=%d end=%s next-page-asks-after %s instead-of %s", strings.Join(yielded, " "), tr.n, end, tok(tr.lasts[i]), tok(want))
+		}
+	}
 	return fmt.Sprintf("yield [%s] requests=%d end=%s", strings.Join(yielded, " "), tr.n, end)
 }
 
@@ -359,7 +376,7 @@ func (*c18) Gen(rng *RNG, tier string) []Case {
 			}
 			line += " P " + pick(rng, []string{"-", "-", "1", "1", "0"}) + " " + strconv.Itoa(cnt)
 			for j := 0; j < cnt; j++ {
-				line += " " + tok(pick(rng, []string{"a", "b", "c", "zz", "", "a/b"}))
+				line += " " + tok(pick(rng, []string{"a", "b", "c", "zz", "", "a/b", "a+b", "a b", "x&n=9", "100%", "é", "a%2Fb", "+"}))
 			}
 		}
 		cases = append(cases, Case{Lines: []string{line}})
@@ -441,6 +458,11 @@ func (*c18) Oracle(c Case, impl []string) []Failure {
 				}
 			}
 			fs = append(fs, Failure{Class: class, Oracle: "client_total", Index: i, Expected: "a result or an error", Observed: got, Detail: "panic value: " + detail})
+		}
+		if t[0] == "pg" && strings.Contains(got, " next-page-asks-after ") {
+			// asking again for what it was just given is how a pager loops without progress against a
+			// server whose answers are each finite
+			fs = append(fs, Failure{Class: "client-pager-no-progress", Oracle: "pager_progress", Index: i, Expected: "the next request asks for what follows the last item received", Observed: got})
 		}
 	}
 	return fs
